@@ -926,6 +926,12 @@ class CodeGen:
             bubble += arg_bubble
 
         label = self.label_for_func(ConcreteSignature(name, tuple(concrete_params)))
+        if label == stdlib.stdlib_funcs[ConcreteSignature(ast.Ident('write'), (DataType.INT,))]:
+            # write_int builds its digits downwards from its argument
+            # slot, so account for the part of the buffer that extends
+            # below the frame in the stack overflow checks.
+            max_digits = len(str(self.max_signed + 1))
+            self.checkpoints.update(self.stack.static_size + max_digits - self.word_size)
         yield asm.Add(self.fp, asm.State(self.fp), asm.IntLiteral(-offset))
         yield from self.goto(label)
         yield asm.Label(end_call)
